@@ -258,7 +258,7 @@ struct C05 : Scenario {
             A->write_initial();
             A->run(1, A->last_step(), &recA);
         } catch (const std::exception& e) {
-            r.fail("C05.runA_threw", std::string("the fault-free run A threw: ") + e.what());
+            r.fail("C05.runA_threw." + msg_key(e.what()), std::string("the fault-free run A threw: ") + e.what());
             if (getenv("VERIF_DUMP_DECK")) fs::spit("/tmp/failed_deck.DATA", deckA);
             enter_dir(""); return finish();
         }
@@ -329,7 +329,7 @@ struct C05 : Scenario {
                 fs::set_op(100 + n);
                 B = World::create(deckB, cfgB, n);
             } catch (const std::exception& e) {
-                c.fail("C05.restart_construct_threw", std::string("building the restarted run threw: ") + e.what());
+                c.fail("C05.restart_construct_threw." + msg_key(e.what()), std::string("building the restarted run threw: ") + e.what());
                 if (getenv("VERIF_DUMP_DECK")) { fs::spit("/tmp/failed_deckB.DATA", deckB); fs::spit("/tmp/failed_deck.DATA", deckA); }
                 break;
             }
@@ -358,7 +358,7 @@ struct C05 : Scenario {
                     }
                     B->post_step(n, &recB);
                     B->run(n + 1, last, &recB);
-                } catch (const std::exception& e) { c.fail("C05.R4.continuation_threw", std::string("the restarted run threw while continuing: ") + e.what()); }
+                } catch (const std::exception& e) { c.fail("C05.R4.continuation_threw." + msg_key(e.what()), std::string("the restarted run threw while continuing: ") + e.what()); }
                 sim_s += B ? B->sim_seconds : 0;
             }
             if (!c.failed) {
